@@ -52,8 +52,26 @@ def ident(i, prefix):
     return '%s%s' % (prefix, ''.join(chr(65 + (i // 26 ** k) % 26) for k in range(2)))
 
 
+def unique_descriptions(realm):
+    """descriptions become identifiers in the generated code (FieldName_DESCRIPTION): keep them distinct per field after that mapping"""
+    if realm:
+        seen = set()
+        for i, vd in enumerate(realm['vals']):
+            key = vd[1].upper().replace(' ', '_')
+            if key in seen:
+                vd[1] = '%s %d' % (vd[1], i)
+                key = vd[1].upper().replace(' ', '_')
+            seen.add(key)
+    return realm
+
+
 @st.composite
 def st_realm(draw, typ):
+    return unique_descriptions(draw(st_realm_raw(typ)))
+
+
+@st.composite
+def st_realm_raw(draw, typ):
     ft = TYPES[typ]
     desc = st.text(alphabet='ABCDEFGHIJKLMNOPQRSTUVWXYZ_ ', min_size=1, max_size=12).map(lambda s: s.strip() or 'D')
     if fr.is_char(ft) and ft != fr.FT_Boolean:
@@ -78,11 +96,11 @@ def st_realm(draw, typ):
 
 
 @st.composite
-def st_schema(draw, family='general'):
+def st_schema(draw, family='general', big=(150, 300)):
     """a schema model: fields, components, messages (JSON-serialisable)"""
     nf = draw(st.integers(8, 40)) if family == 'general' else draw(st.integers(8, 16))
     if family == 'general' and draw(st.integers(0, 19)) == 0:
-        nf = draw(st.integers(150, 300))
+        nf = draw(st.integers(*big))
     used_nums = {n for n, _, _ in STD_FIELDS}
     nums = draw(st.lists(st.one_of(st.integers(1, 20000), st.integers(1, 1200)).filter(lambda n: n not in used_nums and n + 1 not in used_nums), min_size=nf, max_size=nf, unique=True))
     fields = []          # {'num','name','type','realm'}
@@ -138,9 +156,6 @@ def st_schema(draw, family='general'):
         if not members:
             break
         els = [['field', members[0], True]] + [['field', m, st_req()] for m in members[1:]]
-        if pairs and draw(st.integers(0, 3)) == 0:
-            p = pairs.pop()
-            els += [['field', p[0], False], ['field', p[1], False]]
         nest = [g for g in gdefs if gdefs[g]['depth'] < 3 and not gdefs[g]['nested']]
         depth = 1
         if nest and draw(st.integers(0, 1)):
@@ -148,6 +163,9 @@ def st_schema(draw, family='general'):
             gdefs[g]['nested'] = True
             els.insert(draw(st.integers(1, len(els))), ['group', g, st_req(), gdefs[g]['els']])
             depth = gdefs[g]['depth'] + 1
+        if pairs and draw(st.integers(0, 3)) == 0:
+            p = pairs.pop()          # a Length field and its data field stay adjacent (that is what makes them a pair)
+            els += [['field', p[0], False], ['field', p[1], False]]
         gdefs[c] = {'els': els, 'depth': depth, 'nested': False}
     top_groups = [g for g in gdefs if not gdefs[g]['nested']]
     # components (flat or nesting one other component / one top group)
@@ -320,7 +338,7 @@ def expand(model, els, required=True, in_group=False):
 
 
 # ------------------------------------------------------------------------------------------------
-def compile_schema(model, workdir, tag):
+def compile_schema(model, workdir, tag, all_fields=False):
     """XML -> f8c -> shared object exporting verif_ctx(); returns (so_path or None, log)"""
     os.makedirs(workdir, exist_ok=True)
     d = os.path.join(workdir, tag)
@@ -329,7 +347,7 @@ def compile_schema(model, workdir, tag):
     with open(os.path.join(d, 's.xml'), 'w') as f:
         f.write(to_xml(model))
     f8c = os.path.join(VERIF, 'build', 'plain', 'f8c', 'f8c')
-    r = subprocess.run([f8c, '-Vp', 'g', '-n', 'GEN', 's.xml'], cwd=d, stdout=subprocess.PIPE, stderr=subprocess.STDOUT, text=True)
+    r = subprocess.run([f8c, '-Vfp' if all_fields else '-Vp', 'g', '-n', 'GEN', 's.xml'], cwd=d, stdout=subprocess.PIPE, stderr=subprocess.STDOUT, text=True)
     log = r.stdout
     files = ['g_types.cpp', 'g_traits.cpp', 'g_classes.cpp']
     if r.returncode != 0 or 'error' in log.lower() or not all(os.path.exists(os.path.join(d, x)) for x in files):
@@ -338,8 +356,16 @@ def compile_schema(model, workdir, tag):
         f.write('#include <fix8/f8includes.hpp>\n#include "g_types.hpp"\n#include "g_router.hpp"\n#include "g_classes.hpp"\n'
                 'extern "C" const FIX8::F8MetaCntx *verif_ctx() { return &FIX8::GEN::ctx(); }\n')
     cfg = os.path.join(VERIF, 'build', 'asan', 'cfg')
-    cmd = ['clang++', '-DFIX8_VERIF', '-DHAVE_CONFIG_H', '-I' + cfg, '-I' + os.path.join(REPO, 'include'), '-I.', '-std=gnu++17', '-g0', '-O0',
-           '-fsanitize=address,undefined', '-fno-sanitize=vptr', '-fno-sanitize-recover=undefined', '-D_GLIBCXX_SANITIZE_VECTOR', '-w', '-fPIC', '-shared'] + files + ['shim.cpp', '-o', 'g.so']
+    flags = ['-DFIX8_VERIF', '-DHAVE_CONFIG_H', '-I' + cfg, '-I' + os.path.join(REPO, 'include'), '-I.', '-std=gnu++17', '-g0', '-O0',
+             '-fsanitize=address,undefined', '-fno-sanitize=vptr', '-fno-sanitize-recover=undefined', '-D_GLIBCXX_SANITIZE_VECTOR', '-w', '-fPIC']
+    # the fix8 headers are precompiled once per worker process and run (they are most of each unit's compile time); built from the working tree like everything else
+    pch = os.path.join(workdir, 'f8_%d.pch' % os.getpid())
+    if not os.path.exists(pch):
+        r = subprocess.run(['clang++'] + flags + ['-x', 'c++-header', os.path.join(REPO, 'include', 'fix8', 'f8includes.hpp'), '-o', pch],
+                           cwd=d, stdout=subprocess.PIPE, stderr=subprocess.STDOUT, text=True)
+        if r.returncode != 0:
+            return None, 'precompiling fix8/f8includes.hpp failed:\n' + r.stdout[-3000:]
+    cmd = ['clang++'] + flags + ['-include-pch', pch, '-shared'] + files + ['shim.cpp', '-o', 'g.so']
     r = subprocess.run(cmd, cwd=d, stdout=subprocess.PIPE, stderr=subprocess.STDOUT, text=True)
     if r.returncode != 0:
         return None, 'generated code does not compile:\n' + r.stdout[-4000:]
@@ -423,3 +449,11 @@ def st_schema_c14(draw):
             els.reverse()
         msgs.append({'name': ident(k, 'Msg'), 'msgtype': 'G%s' % chr(65 + k), 'cat': 'app', 'els': els})
     return dedupe_messages({'fields': fields, 'comps': {}, 'msgs': msgs, 'family': 'c14', 'mode': mode, 'collide': collide})
+
+
+def used_fields(model):
+    """names of the fields some message, the header or the trailer uses (f8c generates code for these only, unless run with -f)"""
+    used = {n for n, _ in HEADER} | {n for n, _ in TRAILER}
+    for m in model['msgs']:
+        used.update(flatten_names(m['els'], model['comps']))
+    return used
